@@ -55,3 +55,40 @@ Proof.
   intros regs g r c ot Hr Hc Hn g'. rewrite gen_get_by_ref in * by exact Hr.
   unfold g'. apply read_with_writer_codec; assumption.
 Qed.
+
+(* a whole registration history through the regenerated methods: CodecRegistry.__init__ followed by any add_codec / add_file_codec calls *)
+Definition gen_register (g : registry) (r : reg) : registry :=
+  let hp := match r with
+            | RCodec _ _ => gen_add_codec (obj_of g r) (handled g) (protocols g)
+            | RFile _ _ => gen_add_file_codec (obj_of g r) (handled g) (protocols g)
+            end in
+  Registry (fst hp) (snd hp) (S (next g)).
+
+Lemma gen_register_is_register : forall g r, gen_register g r = register g r.
+Proof.
+  intros g [ref types|ref types]; unfold gen_register; symmetry;
+    [apply gen_add_file_codec_is_register | apply gen_add_codec_is_register].
+Qed.
+
+Theorem gen_registrations_are_model : forall regs g, fold_left gen_register regs g = fold_left register regs g.
+Proof.
+  induction regs as [|r t IH]; intro g; cbn [fold_left]; [reflexivity|].
+  rewrite gen_register_is_register. apply IH.
+Qed.
+
+(* the default registry (_build_default_registry: the four file codecs of Extracted/ConstCodec.v, in order) built by the regenerated methods *)
+Corollary gen_default_registry : fold_left gen_register default_regs empty_registry = default_registry.
+Proof. unfold default_registry. apply gen_registrations_are_model. Qed.
+
+(* end to end on the regenerated code: whatever is registered later (no codec under the persisted reference itself), in this or another
+   process starting from the default registry, get_codec(_, ref) keeps answering the codec object that wrote the blob *)
+Corollary gen_read_with_writer_codec_history : forall before after r c ot, r <> [] ->
+  let g := fold_left gen_register before default_registry in
+  gen_get_codec ot (Some r) (handled g) (protocols g) = Some c ->
+  forallb (fun x => negb (rebinding r x)) after = true ->
+  let g' := fold_left gen_register after g in
+  gen_get_codec ot (Some r) (handled g') (protocols g') = Some c.
+Proof.
+  intros before after r c ot Hr g Hc Hn g'. unfold g'. rewrite gen_registrations_are_model.
+  apply gen_read_with_writer_codec; assumption.
+Qed.
